@@ -17,14 +17,14 @@ os.rmdir(wt)
 subprocess.run(["git", "-C", "/repo", "worktree", "add", "-q", "--detach", wt, "HEAD"], check=True)
 meta = {"property": pid, "evaluated_at_repo_commit": subprocess.run(["git", "-C", "/repo", "rev-parse", "--short", "HEAD"], capture_output=True, text=True).stdout.strip()}
 try:
-    env = dict(os.environ, PYTHONPATH="/tmp/simmpi:" + wt, PYTHONHASHSEED="0")
+    env = dict(os.environ, PYTHONPATH=os.path.join(V, "shim") + ":" + wt, PYTHONHASHSEED="0")     # (agents get a copy of the shim under /tmp/simmpi)
 
     def demo():
         p = subprocess.run(["/venv/bin/python", os.path.join(src, "demo.py")], cwd=wt, env=env, capture_output=True, text=True, timeout=1800)
         return p.returncode, (p.stdout + p.stderr)[-600:]
     # demos may refer to their own worktree path: rewrite it
     d = open(os.path.join(src, "demo.py")).read()
-    d2 = re.sub(r"/tmp/wt\d?/C\d\d", wt, d)
+    d2 = re.sub(r"/tmp/wt\d?/C\d\d", wt, d).replace("/tmp/simmpi", os.path.join(V, "shim"))
     sub = os.path.basename(os.path.normpath(src))
     rel = os.path.join("seed", sub) if re.fullmatch(r"m\d+", sub) else "seed"       # same relative location as in the agent's worktree
     os.makedirs(os.path.join(wt, rel), exist_ok=True)
